@@ -177,10 +177,11 @@ def r3_duplicates(ctx):
         c0 = F.closure("quick_xml::events::attributes::IterState::check_for_duplicates::{closure#0}")
         ok = False
         if c0 is not None:
-            for p in sym.walk(c0):
-                r = ret_of(p)
-                if r is not None and r[0] == "call" and name_is(r[2], "eq") and "[u8]" in str([c[5] for c in calls(p) if name_is(c[2], "eq")]):
-                    ok = True
+            # on EVERY path of the predicate (HTML mode included: it differs only in what it accepts, not in what a key is)
+            rs = [(ret_of(p), p) for p in sym.walk(c0)]
+            ok = bool(rs) and all(r is not None and r[0] == "call" and name_is(r[2], "eq") and "[u8]" in str([c[5] for c in calls(p) if name_is(c[2], "eq")]) for r, p in rs)
+            if not ok and rs:
+                ctx.ob("R3", "check_for_duplicates:compare:every-path", False, "some path of the key comparison is not plain slice equality: %s" % sorted({sym.show(r, 2)[:60] for r, _ in rs if r is not None}), config=cfg)
         if not ok:
             # the comparison written in the function itself (loop spelling)
             for p in ctx.paths(b):
@@ -385,4 +386,34 @@ def r7_whitespace(ctx):
         o["rule"] = "R7"
 
 
-RULES = [("R1", r1_table), ("R3", r3_duplicates), ("R4", r4_stays_ended), ("R5", r5_recovery), ("R6", r6_entry_points), ("R7", r7_whitespace)]
+def r8_byte_predicates(ctx):
+    """Every byte predicate of the attribute tokeniser (the closures handed to find/position/skip in IterState::*) is
+    built from the crate's XML whitespace and '=': its accepted set is whitespace, its complement, or whitespace plus
+    '='; the only other predicate compares with the quote captured from the input.  A predicate that knows only some
+    of the blanks moves key boundaries and recovery points for the others."""
+    for cfg, F in ctx.facts.items():
+        w = F.body("utils::is_whitespace")
+        ws = valueset(w) if w is not None else set()
+        allowed = {"whitespace": ws, "not-whitespace": set(range(256)) - ws, "whitespace-or-=": ws | {61}}
+        n = 0
+        kinds = set()
+        for b in F.bodies:
+            if "events::attributes::IterState::" not in b.path or "{closure" not in b.path or "check_for_duplicates" in b.path:
+                continue
+            if str(b.locals[0] if isinstance(b.locals[0], str) else b.locals[0]) != "bool":
+                continue   # not a predicate (e.g. the `.map(|n| offset + n)` that turns a relative position into an absolute one)
+            nm = b.path.split("IterState::", 1)[1]
+            vs = byte_predicate_set(F, b, ws)
+            if vs is None:
+                quote = all(ret_of(p) is not None and ret_of(p)[0] == "bin" and ret_of(p)[1] == "Eq" and (upvar_of(b, ret_of(p)[2]) is not None or upvar_of(b, ret_of(p)[3]) is not None) for p in sym.walk(b))
+                ctx.ob("R8", "predicate:%s" % nm, quote, "a predicate outside the byte-class vocabulary must be the comparison with the captured quote (idiom not recognised: fail closed)", config=cfg)
+                continue
+            n += 1
+            k = [name for name, a in allowed.items() if a == vs]
+            kinds.update(k)
+            ctx.ob("R8", "predicate:%s" % nm, bool(k), "accepted bytes must be XML whitespace, its complement, or whitespace plus '=': accepts %s" % (sorted(vs) if len(vs) < 40 else "all but %s" % sorted(set(range(256)) - vs)), loc=b.loc(b.j["span"]), config=cfg)
+        ctx.floor("R8", "byte predicates of the attribute tokeniser", n, 5, config=cfg)
+        ctx.ob("R8", "predicate:key-terminator", "whitespace-or-=" in kinds, "a key ends at '=' or at any XML whitespace (kinds present: %s)" % sorted(kinds), config=cfg)
+
+
+RULES = [("R1", r1_table), ("R3", r3_duplicates), ("R4", r4_stays_ended), ("R5", r5_recovery), ("R6", r6_entry_points), ("R7", r7_whitespace), ("R8", r8_byte_predicates)]
